@@ -467,3 +467,107 @@ Proof.
 Qed.
 
 End Joint.
+
+Section JointSum.
+Context {T : Type}.
+Variable zero : T.
+Variable add : T -> T -> T.
+Hypothesis add_0_r : forall x, add x zero = x.
+Notation tsum := (tsum zero add).
+Notation comp_sum := (comp_sum zero add).
+Notation joint_spec := (joint_spec zero add).
+Notation joint_term := (joint_term zero add).
+Notation joint_log_prob := (joint_log_prob zero add).
+Notation sum_dim := (sum_dim zero add).
+Notation tS := (term_S zero add).
+Notation t1 := (term_1 zero add).
+
+Lemma length_flat_map_const {A B} (g : A -> list B) m l : (forall x, length (g x) = m) ->
+  length (flat_map g l) = length l * m.
+Proof. intros H. induction l; simpl; [reflexivity|]. rewrite app_length, H, IHl. reflexivity. Qed.
+
+Lemma count_ones (k : nat) (sh : list nat) (cs : list (tcomp T)) (f : tcomp T -> tensor T) :
+  (forall c, nth k (tshape (f c)) 0 = 1) ->
+  fold_right (fun t acc => nth k (tshape t) 0 + acc) 0 (map f cs) = length cs.
+Proof. intros H. induction cs; simpl; [reflexivity|]. now rewrite H, IHcs. Qed.
+
+(* all terms are per-sample columns *)
+Lemma cat_sum_S S (cs : list (tcomp T)) : cs <> [] ->
+  (c <- cat (-1) (map (tS S) cs) ;; sum_dim (-1) false c) =
+  Some (mkT [S] (map (fun s => joint_spec S s cs) (seq 0 S))).
+Proof.
+  intros Hne. destruct cs as [|c0 cs']; [contradiction|]. set (cs := c0 :: cs') in *.
+  unfold cat. change (map (tS S) cs) with (tS S c0 :: map (tS S) cs') at 1.
+  cbv beta iota. change (tshape (tS S c0)) with [S; 1]. cbv iota.
+  change (length [S; 1]) with 2. rewrite (norm_dim_last 1). cbn [obind].
+  assert (F : forallb (fun t => same_except 1 [S; 1] (tshape t)) (map (tS S) cs) = true).
+  { apply forallb_forall. intros t Ht. apply in_map_iff in Ht. destruct Ht as (c & <- & _).
+    unfold same_except. cbn [term_S tshape firstn skipn length]. rewrite !shape_eqb_refl. reflexivity. }
+  rewrite F. cbn [firstn skipn numel fold_right app].
+  rewrite (count_ones 1 [] cs (tS S)) by reflexivity.
+  set (m := length cs).
+  set (g := fun o => map (fun c => comp_sum S o c) cs).
+  assert (D : flat_map (fun o => flat_map (fun t => chunk (nth 1 (tshape t) 0 * 1) o (tdata t)) (map (tS S) cs))
+                       (seq 0 (S * 1)) = flat_map g (seq 0 S)).
+  { rewrite Nat.mul_1_r. apply flat_map_ext_in. intros o Ho. apply in_seq in Ho.
+    rewrite flat_map_map. unfold g. rewrite <- flat_map_single. apply flat_map_ext_in. intros c _.
+    cbn [term_S tshape tdata nth]. change (1 * 1) with 1. apply (chunk1_map (fun s => comp_sum S s c) S o). lia. }
+  rewrite D. cbn [obind].
+  assert (Lg : forall i, length (g i) = m) by (intros; unfold g; now rewrite map_length).
+  change [S; m] with ([S] ++ [m]).
+  rewrite (sum_last zero add false [S] m) by (rewrite (length_flat_map_const g m) by exact Lg; rewrite seq_length; simpl; lia).
+  cbn [app numel fold_right]. rewrite Nat.mul_1_r. f_equal. f_equal.
+  apply map_ext_in. intros s Hs. apply in_seq in Hs.
+  rewrite (chunk_flat_map g m S s Lg) by lia. reflexivity.
+Qed.
+
+(* all terms are single values *)
+Lemma cat_sum_1 S (cs : list (tcomp T)) : cs <> [] ->
+  (c <- cat (-1) (map (t1 S) cs) ;; sum_dim (-1) false c) =
+  Some (mkT [] [tsum (map (comp_sum S 0) cs)]).
+Proof.
+  intros Hne. destruct cs as [|c0 cs']; [contradiction|]. set (cs := c0 :: cs') in *.
+  unfold cat. change (map (t1 S) cs) with (t1 S c0 :: map (t1 S) cs') at 1.
+  cbv beta iota. change (tshape (t1 S c0)) with [1]. cbv iota.
+  change (length [1]) with 1. rewrite (norm_dim_last 0). cbn [obind].
+  assert (F : forallb (fun t => same_except 0 [1] (tshape t)) (map (t1 S) cs) = true).
+  { apply forallb_forall. intros t Ht. apply in_map_iff in Ht. destruct Ht as (c & <- & _). reflexivity. }
+  rewrite F. cbn [firstn skipn numel fold_right app seq flat_map].
+  rewrite (count_ones 0 [] cs (t1 S)) by reflexivity.
+  set (m := length cs).
+  rewrite app_nil_r, flat_map_map.
+  assert (D : flat_map (fun c => chunk (nth 0 (tshape (t1 S c)) 0 * 1) 0 (tdata (t1 S c))) cs
+              = map (comp_sum S 0) cs).
+  { rewrite <- flat_map_single. apply flat_map_ext_in. intros c _. reflexivity. }
+  rewrite D. cbn [obind].
+  change [m] with ([] ++ [m]).
+  rewrite (sum_last zero add false [] m) by (rewrite map_length; simpl; unfold m; lia).
+  cbn [app numel fold_right seq map].
+  rewrite chunk_0 by (now rewrite map_length). reflexivity.
+Qed.
+
+(* a per-sample column and a single value cannot be concatenated *)
+Definition is_S (S : nat) (t : tensor T) : bool := shape_eqb (tshape t) [S; 1].
+Definition is_1 (t : tensor T) : bool := shape_eqb (tshape t) [1].
+
+Lemma cat_mixed_S S t0 ts : tshape t0 = [S; 1] -> existsb is_1 ts = true -> cat (-1) (t0 :: ts) = None.
+Proof.
+  intros H0 Hex. unfold cat. rewrite H0. change (length [S; 1]) with 2. rewrite (norm_dim_last 1). cbn [obind].
+  replace (forallb (fun t => same_except 1 [S; 1] (tshape t)) (t0 :: ts)) with false; [reflexivity|].
+  symmetry. apply not_true_is_false. intros F. rewrite forallb_forall in F.
+  apply existsb_exists in Hex. destruct Hex as (t & Hin & Ht). apply shape_eqb_eq in Ht.
+  specialize (F t (or_intror Hin)). rewrite Ht in F. unfold same_except in F. cbn [length Nat.eqb] in F.
+  rewrite andb_false_r in F. discriminate.
+Qed.
+
+Lemma cat_mixed_1 S t0 ts : tshape t0 = [1] -> existsb (is_S S) ts = true -> cat (-1) (t0 :: ts) = None.
+Proof.
+  intros H0 Hex. unfold cat. rewrite H0. change (length [1]) with 1. rewrite (norm_dim_last 0). cbn [obind].
+  replace (forallb (fun t => same_except 0 [1] (tshape t)) (t0 :: ts)) with false; [reflexivity|].
+  symmetry. apply not_true_is_false. intros F. rewrite forallb_forall in F.
+  apply existsb_exists in Hex. destruct Hex as (t & Hin & Ht). apply shape_eqb_eq in Ht.
+  specialize (F t (or_intror Hin)). rewrite Ht in F. unfold same_except in F. cbn [length Nat.eqb] in F.
+  rewrite andb_false_r in F. discriminate.
+Qed.
+
+End JointSum.
